@@ -96,6 +96,17 @@ CHECKS = {
              "WhenQueue is monitored by C04.",
         technique="runtime monitor: subscription table swept against a tracer-recorded tick chain; gate-placed subscriptions at verif schedule points",
         engine="concmach", design_ref="5/C06"),
+    "C12": dict(
+        level="exploration",
+        text="The check binary is built with -race. Each generated program runs in its own process with GORACE=halt_on_error=0 log_path=...: 2-16 goroutines each "
+             "issue 20-60 PRNG-chosen calls from a table of ~85 public *Machine methods (mutations, Can*, getters, When*, NewStateCtx, HandlersBind/Detach, TracerBind/Detach, "
+             "SemLogger setters, SetTags, Export, OnDispose, OnChange, Eval, Log ...) while transitions with handlers run, with yields at the machine's schedule points and "
+             "GOMAXPROCS in {2,8,16}, repeated 3x; a second family feeds a NetworkMachine through NetMachInternal.Lock/UpdateClock from 1-2 writers while 2-8 readers call "
+             "~28 of its getters and When*. Every report block in the race log is a violation, deduplicated by the pair of innermost in-module functions; the harness "
+             "records which method pairs actually overlapped (coverage figure).",
+        note="APIs documented as not thread-safe or misuse are excluded (Resolver(), DisposeForce, Import, TestMockClock, SetSchema, Dispose). The race detector only sees executed accesses.",
+        technique="Go race detector (-race, report blocks parsed from per-process logs) over generated concurrent API programs with schedule-point yields",
+        engine="concmach", design_ref="5/C12"),
     "C11": dict(
         level="exploration",
         text="Each generated (schema rich in Auto/mutual-Remove/Add-fan/independent-Require structure, static veto table, history) case is executed on 64 fresh "
